@@ -1,0 +1,119 @@
+//go:build verif
+
+package immutable
+
+// Hook for the verification harness (/verif, property C09). Compiled only with the `verif`
+// build tag. It reads, for one data file, every chunk (one series) with its segment time
+// ranges, the per-column statistics stored in the chunk meta (the "pre-aggregation" record
+// written by ColumnBuilder.BuildPreAgg) and the rows of every segment.
+
+import (
+	"fmt"
+	"sort"
+
+	"github.com/openGemini/openGemini/lib/fileops"
+	"github.com/openGemini/openGemini/lib/record"
+	"github.com/openGemini/openGemini/lib/util/lifted/vm/protoparser/influx"
+)
+
+// VerifColStats is the stored statistics record of one column of one chunk. Min/Max/Sum are
+// int64, float64 or bool according to Type; they are nil for the kinds that do not keep them.
+type VerifColStats struct {
+	Name       string
+	Type       int
+	Count      int64
+	Sum        interface{}
+	Min, Max   interface{}
+	MinT, MaxT int64
+}
+
+// VerifChunk is one series of one file.
+type VerifChunk struct {
+	Sid       uint64
+	SegRanges [][2]int64
+	Stats     []VerifColStats
+	Segments  []*record.Record // all columns of the chunk, in chunk-meta order, time last
+}
+
+// VerifSetMaxRowsPerSegment sets the ts-store limit of rows per segment (the configuration
+// item data.max-rows-per-segment); n <= 0 restores the default.
+func VerifSetMaxRowsPerSegment(n int) { SetMaxRowsPerSegment4TsStore(n) }
+
+// VerifReadChunks reads every chunk of a file.
+func VerifReadChunks(f TSSPFile) (out []VerifChunk, err error) {
+	defer func() {
+		if r := recover(); r != nil {
+			err = fmt.Errorf("panic while reading chunks: %v", r)
+		}
+	}()
+	n := int(f.MetaIndexItemNum())
+	for i := 0; i < n; i++ {
+		mi, e := f.MetaIndexAt(i)
+		if e != nil {
+			return nil, e
+		}
+		cms, e := f.ReadChunkMetaData(i, mi, nil, fileops.IO_PRIORITY_LOW_READ)
+		if e != nil {
+			return nil, e
+		}
+		for k := range cms {
+			cm := &cms[k]
+			c := VerifChunk{Sid: cm.sid}
+			for s := 0; s < int(cm.segCount); s++ {
+				c.SegRanges = append(c.SegRanges, [2]int64{cm.timeRange[s].minTime(), cm.timeRange[s].maxTime()})
+			}
+			var schema record.Schemas
+			for j := range cm.colMeta {
+				col := &cm.colMeta[j]
+				st := VerifColStats{Name: col.Name(), Type: int(col.ty)}
+				var b PreAggBuilder
+				if col.IsTime() {
+					b = NewTimePreAgg()
+				} else {
+					switch int(col.ty) {
+					case influx.Field_Type_Int:
+						b = NewIntegerPreAgg()
+					case influx.Field_Type_Float:
+						b = NewFloatPreAgg()
+					case influx.Field_Type_Boolean:
+						b = NewBooleanPreAgg()
+					case influx.Field_Type_String:
+						b = NewStringPreAgg()
+					default:
+						return nil, fmt.Errorf("column %s: unknown type %d", col.Name(), col.ty)
+					}
+				}
+				if _, e := b.unmarshal(col.preAgg); e != nil {
+					return nil, fmt.Errorf("column %s: %w", col.Name(), e)
+				}
+				st.Count = b.count()
+				if !col.IsTime() && int(col.ty) != influx.Field_Type_String {
+					st.Min, st.MinT = b.min()
+					st.Max, st.MaxT = b.max()
+					if int(col.ty) != influx.Field_Type_Boolean {
+						st.Sum = b.sum()
+					}
+				}
+				c.Stats = append(c.Stats, st)
+				schema = append(schema, record.Field{Name: col.Name(), Type: int(col.ty)})
+			}
+			if !sort.IsSorted(schema[:len(schema)-1]) {
+				return nil, fmt.Errorf("chunk meta columns not sorted")
+			}
+			for s := 0; s < int(cm.segCount); s++ {
+				dst := record.NewRecordBuilder(schema.Copy())
+				ctx := NewReadContext(true)
+				rec, e := f.ReadAt(cm, s, dst, ctx, fileops.IO_PRIORITY_LOW_READ)
+				if e != nil {
+					return nil, e
+				}
+				if rec == nil {
+					return nil, fmt.Errorf("segment %d of sid %d: no record", s, cm.sid)
+				}
+				c.Segments = append(c.Segments, rec.Copy(true, nil, rec.Schema))
+			}
+			out = append(out, c)
+		}
+	}
+	return out, nil
+}
